@@ -400,3 +400,20 @@ pub fn read_lines(path: &str) -> Vec<String> {
 // named unit constants of the tree under verification (generated by build.rs)
 // ---------------------------------------------------------------------------------------------
 include!(concat!(env!("OUT_DIR"), "/unit_consts.rs"));
+
+// ---------------------------------------------------------------------------------------------
+// the power function of the configuration the harness was built for, called directly
+// (rrtk prefers std over libm over micromath)
+// ---------------------------------------------------------------------------------------------
+#[cfg(feature = "cfg_std")]
+pub fn config_powf(x: f32, y: f32) -> f32 {
+    x.powf(y)
+}
+#[cfg(all(feature = "cfg_libm", not(feature = "cfg_std")))]
+pub fn config_powf(x: f32, y: f32) -> f32 {
+    libm::powf(x, y)
+}
+#[cfg(all(feature = "cfg_micromath", not(feature = "cfg_std"), not(feature = "cfg_libm")))]
+pub fn config_powf(x: f32, y: f32) -> f32 {
+    micromath::F32Ext::powf(x, y)
+}
